@@ -101,6 +101,11 @@ pub fn compress_with(input: &[u8], block: usize, window: u64, parses: Vec<Parse>
 }
 
 pub fn case(a: &mut Acc, input: &[u8], block: usize, window: u64, parses: &[Parse], tag: &str) {
+    let _ = case_w(a, input, block, window, parses, tag);
+}
+
+/// like `case`, and hands back what the strict walker saw (None if the frame was not produced or not well-formed)
+pub fn case_w(a: &mut Acc, input: &[u8], block: usize, window: u64, parses: &[Parse], tag: &str) -> Option<zmodel::walker::Walk> {
     a.evals += 1;
     let nseq: usize = parses.iter().map(|p| p.len()).sum();
     if nseq > 0 {
@@ -108,7 +113,10 @@ pub fn case(a: &mut Acc, input: &[u8], block: usize, window: u64, parses: &[Pars
     }
     let rp = json!({"input": show(input), "input_len": input.len(), "block": block, "window": window, "parses": if nseq <= 40 { json!(parses.iter().map(|p| p.iter().map(|s| (s.ll, s.of, s.ml)).collect::<Vec<_>>()).collect::<Vec<_>>()) } else { json!(format!("{nseq} sequences; first block starts {:?}", &parses[0][..parses[0].len().min(4)])) }});
     match compress_with(input, block, window, parses.to_vec()) {
-        Err(p) => a.bad(format!("panic:{}", p.rsplit(" @ ").next().unwrap_or("")), format!("[{tag}] compress() with a well-behaved matcher panicked ({} bytes, blocks of {block}, {nseq} sequences): {p}", input.len()), rp),
+        Err(p) => {
+            a.bad(format!("panic:{}", p.rsplit(" @ ").next().unwrap_or("")), format!("[{tag}] compress() with a well-behaved matcher panicked ({} bytes, blocks of {block}, {nseq} sequences): {p}", input.len()), rp);
+            None
+        }
         Ok(frame) => {
             let (f, w) = cmp::judge(input, &frame, CompressionLevel::Fastest, tag);
             if let Some(w) = &w {
@@ -126,6 +134,7 @@ pub fn case(a: &mut Acc, input: &[u8], block: usize, window: u64, parses: &[Pars
                 }
                 a.bad(format!("{}:{}", x.prop, x.identity), format!("[{tag}] {} (blocks of {block}, {nseq} sequences)", x.what), rp.clone());
             }
+            w
         }
     }
 }
@@ -425,6 +434,103 @@ fn directed(run: &mut Run, tier: Tier) {
 
 /// the Huffman table reuse decision (treeless literals) over every pair of small alphabets: a matcher that
 /// reports no matches at all, so every block is one literals section of 1100 bytes
+/// (e) the distribution of literal-length, match-length and offset codes within one block decides which table
+/// form and which accuracy log the encoder writes for each of the three fields: for each field every support
+/// size (lowest codes, and codes spread over the range), uses per code from 1 to 64, with and without one extra
+/// code used a single time (normalisation subtracts the smallest count, so that one changes the scale)
+pub fn code_distributions(run: &mut Run, tier: Tier, prop: &str) {
+    use zmodel::tables::{LL_BASE, ML_BASE};
+    let th = meter::threads();
+    const B: usize = 128 * 1024;
+    let first = cmp::unique(B, 77);
+    // value representing code c of each field (smallest value of the code)
+    let ll_val = |c: usize| LL_BASE[c].0 as usize;
+    let ml_val = |c: usize| ML_BASE[c].0 as usize;
+    let of_val = |c: usize| (1usize << c) - 3 + (c % 3); // offset code c <=> ilog2(offset + 3) == c
+    let avail: [Vec<usize>; 3] = [(0..=27).collect(), (0..=44).collect(), (2..=17).collect()];
+    let names = ["literal-length", "match-length", "offset"];
+    let mut cases: Vec<(String, Vec<u8>, Vec<Parse>, usize)> = vec![];
+    for field in 0..3 {
+        let av = &avail[field];
+        let mut ks: Vec<usize> = vec![2, 3, 4, 6, 8, 11, 13, 14, 16, 20, 28, 36, 45];
+        ks.retain(|k| *k <= av.len());
+        if !ks.contains(&av.len()) {
+            ks.push(av.len());
+        }
+        for &k in &ks {
+            for spread in [false, true] {
+                let codes: Vec<usize> = if spread { (0..k).map(|i| av[i * (av.len() - 1) / (k - 1).max(1)]).collect() } else { av[..k].to_vec() };
+                if spread && codes == av[..k] {
+                    continue;
+                }
+                for n in tier.pick(vec![1usize, 2, 5, 19, 20, 21, 32, 64], vec![1, 2, 3, 5, 8, 13, 19, 20, 21, 25, 32, 40, 64, 100]) {
+                    for rare in [false, true] {
+                        let rare_code = av.iter().rev().find(|c| !codes.contains(c)).cloned();
+                        if rare && (rare_code.is_none() || n == 1) {
+                            continue;
+                        }
+                        let mut order: Vec<usize> = vec![];
+                        for _ in 0..n {
+                            order.extend_from_slice(&codes);
+                        }
+                        if rare {
+                            order.insert(order.len() / 2, rare_code.unwrap());
+                        }
+                        // realise the second block: fresh literals, matches copied from `of` bytes back
+                        let mut data = first.clone();
+                        let mut parse: Parse = vec![];
+                        let mut fresh = crate::cmp::xorshift(field as u64 * 1000 + k as u64 * 10 + n as u64);
+                        for &c in &order {
+                            let (ll, ml, of) = match field {
+                                0 => (ll_val(c), 3, 1024),
+                                1 => (1, ml_val(c), 2048),
+                                _ => (1, 4, of_val(c)),
+                            };
+                            for _ in 0..ll {
+                                data.push(fresh() as u8);
+                            }
+                            for _ in 0..ml {
+                                data.push(data[data.len() - of]);
+                            }
+                            parse.push(PSeq { ll, of, ml });
+                        }
+                        if data.len() > 2 * B {
+                            continue; // does not fit one block
+                        }
+                        cases.push((format!("{} codes: {k} codes ({}) x {n} uses{}", names[field], if spread { "spread" } else { "lowest" }, if rare { " + one code used once" } else { "" }), data, vec![vec![], parse], field));
+                    }
+                }
+            }
+        }
+    }
+    let seen: std::sync::Mutex<std::collections::BTreeSet<(usize, u8)>> = std::sync::Mutex::new(Default::default());
+    let accs = meter::par_fold(cases.len(), th, Acc::default, |a, i| {
+        let (name, input, parses, field) = &cases[i];
+        if !valid(input, B, 1 << 18, parses) {
+            a.bad(format!("MODEL:invalid_code_distribution_parse:{i}"), format!("harness: parse [{name}] is not valid"), json!({}));
+            return;
+        }
+        if let Some(w) = case_w(a, input, B, 1 << 18, parses, name) {
+            if let Some(m) = w.blocks.get(1).and_then(|b| b.modes) {
+                // modes byte: LL bits 7-6, OF bits 5-4, ML bits 3-2
+                let mode = match field {
+                    0 => m >> 6,
+                    1 => (m >> 2) & 3,
+                    _ => (m >> 4) & 3,
+                };
+                seen.lock().unwrap().insert((*field, mode));
+                if mode == 2 {
+                    a.extra[1] += 1;
+                }
+            }
+        }
+    });
+    let x = merge(run, prop, "code_distributions_per_field", accs, false);
+    run.add("frames_with_a_compressed_block", x[0]);
+    run.set("code_distribution_blocks_with_an_fse_table_for_the_varied_field", x[1]);
+    run.set("code_distribution_modes_seen_per_field", json!(seen.lock().unwrap().iter().map(|(f, m)| format!("{}: mode {m}", names[*f])).collect::<Vec<_>>()));
+}
+
 fn table_reuse(run: &mut Run, tier: Tier) {
     let th = meter::threads();
     let nsym = tier.pick(5usize, 6);
@@ -488,9 +594,10 @@ pub fn main(tier: Tier, replay: Option<Value>) -> i32 {
     complete_small(&mut run, tier);
     restricted_moves(&mut run, tier);
     directed(&mut run, tier);
+    code_distributions(&mut run, tier, "C16");
     table_reuse(&mut run, tier);
     run.set("exhaustive", false);
-    run.set("rule", "a scripted Matcher replays a parse through the public trait. (a) every input over {a,b} of length 3..=12/14, cut into blocks of 4 and of 11 bytes, with EVERY valid parse of every block (all tilings by literal runs and matches of length >= 3 at every offset whose source really equals the target, incl. zero-length literal runs, overlapping matches and matches into earlier blocks; per-input cap reported); (b) 64-byte periodic inputs in blocks of 32 with every parse of <= 3/4 sequences over the move set ll in {0,1,2,5} x ml in {3,4,7,16,rest} x offset in {period, 2*period, max, 1}, which are large enough to be emitted compressed; (c) parses directed at the encoder's thresholds: sequence counts at 1,2,126..129,255,256,0x7EFF..0x7F01,0x7FFF..0x8001,43689; single-sequence blocks; all literal lengths 0; every literal-length and match-length code boundary up to a whole block; offsets 1, exactly the window, exactly n blocks back for windows of 1 KiB / 128 KiB / 8 MiB; 13 windows that are not powers of two (1025 .. 1 MiB + 1) with a match at offset = window; Huffman / raw fallback / Huffman block triples; > 1024 literals of a single byte value; (d) the Huffman table reuse decision: every ordered pair of alphabets that are subsets (>= 2 symbols) of 5/6 byte values x 9 frequency-profile pairs as three literal-only 1100-byte blocks (first alphabet, second, first again) through a matcher that reports no matches. Oracle: no panic, this crate's decoder and libzstd return the input, the strict walker accepts, declared window >= reported window. non-trivial = parses with at least one match");
+    run.set("rule", "a scripted Matcher replays a parse through the public trait. (a) every input over {a,b} of length 3..=12/14, cut into blocks of 4 and of 11 bytes, with EVERY valid parse of every block (all tilings by literal runs and matches of length >= 3 at every offset whose source really equals the target, incl. zero-length literal runs, overlapping matches and matches into earlier blocks; per-input cap reported); (b) 64-byte periodic inputs in blocks of 32 with every parse of <= 3/4 sequences over the move set ll in {0,1,2,5} x ml in {3,4,7,16,rest} x offset in {period, 2*period, max, 1}, which are large enough to be emitted compressed; (c) parses directed at the encoder's thresholds: sequence counts at 1,2,126..129,255,256,0x7EFF..0x7F01,0x7FFF..0x8001,43689; single-sequence blocks; all literal lengths 0; every literal-length and match-length code boundary up to a whole block; offsets 1, exactly the window, exactly n blocks back for windows of 1 KiB / 128 KiB / 8 MiB; 13 windows that are not powers of two (1025 .. 1 MiB + 1) with a match at offset = window; Huffman / raw fallback / Huffman block triples; > 1024 literals of a single byte value; (d) the Huffman table reuse decision: every ordered pair of alphabets that are subsets (>= 2 symbols) of 5/6 byte values x 9 frequency-profile pairs as three literal-only 1100-byte blocks (first alphabet, second, first again) through a matcher that reports no matches. (e) code distributions: for each of literal-length / match-length / offset codes, 2..=all usable codes (lowest and spread) x 1..=64 (100) uses per code, with and without one extra code used once, as the second block of a two-block input (decides table form and accuracy log). Oracle: no panic, this crate's decoder and libzstd return the input, the strict walker accepts, declared window >= reported window. non-trivial = parses with at least one match");
     run.sample(json!({"input": "abababab", "block": 4, "parses": [[], [[0, 2, 4]]], "meaning": "second block is one match of length 4 at offset 2 with no literals"}));
     run.assume("well-behaved = literal runs and matches tile each block exactly, match length >= 3, offset <= declared window and <= data seen so far, source bytes equal target bytes; checked by the harness for every parse it feeds");
     run.finish()
